@@ -49,4 +49,14 @@ PROPS = {
         "assumptions": ["non-negative voting powers with total < 2^62", "the EVM path into ExecTX (precompile 0xfe, contract, node glue) is covered only by the sender-authentication probe"],
         "notes": [],
     },
+    "C20": {
+        "props_file": "Props/C20.v",
+        "engines": [{"name": "sconn", "n_quick": 120, "n_thorough": 3000},
+                    {"name": "mconn", "n_quick": 400, "n_thorough": 20000},
+                    {"name": "admit", "n_quick": 160, "n_thorough": 640}],
+        "level_text": "Coq theorems: (i) the framed encrypted stream delivers exactly the written bytes for any write and read sizes, and any replayed, reordered, dropped, modified or truncated frame ends the connection with only a prefix delivered (ideal authenticated encryption: the wire can carry only frames the sender sealed, or garbage); (ii) for every interleaving that keeps per-channel order, each channel delivers exactly its messages when they fit the capacity, and an over-capacity message is never delivered; (iii) the admission decision implies not-refused, announced key = authenticated key, and a current authority's signature when CA admission applies - also exhaustively over the 640-configuration matrix. Tied to /repo by real SecretConnection pairs with a scripted man in the middle and nonce inspection, the real Channel packetiser/reassembler at packet level, and real Switch-to-Switch admissions over the configuration matrix.",
+        "level_note": "secretbox/curve25519/ed25519 idealised (a sealed frame opens only under its own nonce; frames cannot be forged); flow control, ping/pong, timers and goroutine scheduling of MConnection are runtime behaviour outside the model; truncation at a frame boundary is a connection close (clean EOF), which any network adversary can cause",
+        "assumptions": ["ideal authenticated encryption and key exchange", "handshake itself (ephemeral keys, challenge signature) exercised by the real code in every sconn/admit case but not modelled"],
+        "notes": ["the handshake reads a peer-supplied 32-bit length and allocates it before authentication (noted under C08)"],
+    },
 }
